@@ -5,6 +5,8 @@ import (
 	"fmt"
 	"os"
 	"sort"
+	"sync"
+	"sync/atomic"
 	"time"
 
 	"github.com/klev-dev/klevdb"
@@ -193,6 +195,52 @@ func crashWorkload(args []string) int {
 			}
 			em.Next = next
 			mark("E", em)
+		case "concsync":
+			// st.V publishers and one syncer run concurrently; every call writes its own B/E markers
+			// (ids i*100000 + sub). Used by C06 only: is what Sync returned durable?
+			var wg sync.WaitGroup
+			var subID atomic.Int64
+			for p := 0; p < st.V; p++ {
+				wg.Add(1)
+				pr := NewRand(spec.Seed, 56, int64(p))
+				go func(p int) {
+					defer wg.Done()
+					for k := 0; k < st.N; k++ {
+						id := i*100000 + int(subID.Add(1))
+						n := 1 + pr.Intn(3)
+						b := WLBegin{I: id, Kind: "cpub"}
+						msgs := make([]klevdb.Message, n)
+						for j := range msgs {
+							pm := PubMsg{Key: keys[pr.Intn(len(keys))], T: baseTime, Value: append([]byte(fmt.Sprintf("%s.p%d.%d.%d|", spec.Name, p, k, j)), pr.Bytes(pr.Intn(60))...)}
+							b.Msgs = append(b.Msgs, pm)
+							msgs[j] = klevdb.Message{Key: pm.Key, Value: pm.Value, Time: time.UnixMicro(pm.T).UTC()}
+						}
+						mark("B", b)
+						nx, err := l.Publish(msgs)
+						e := WLEnd{I: id, Next: nx}
+						if err != nil {
+							e.Err = err.Error()
+						}
+						mark("E", e)
+					}
+				}(p)
+			}
+			wg.Add(1)
+			go func() {
+				defer wg.Done()
+				for k := 0; k < st.N*2; k++ {
+					id := i*100000 + int(subID.Add(1))
+					mark("B", WLBegin{I: id, Kind: "csync"})
+					nx, err := l.Sync()
+					e := WLEnd{I: id, Next: nx}
+					if err != nil {
+						e.Err = err.Error()
+					}
+					mark("E", e)
+				}
+			}()
+			wg.Wait()
+			next, _ = l.NextOffset()
 		}
 	}
 	if l != nil {
